@@ -1,0 +1,18 @@
+//go:build verif
+
+// Contracts for the verif build tag (read by /verif/govc; comment-only).
+package crc
+
+//@ ghostfun crcValue(uint32) uint32
+
+//@ func Checksum.Update
+//@ property C10 C09
+//@ ensures result == crc32Update(c, b)
+//@ modifies nothing
+
+// Value is one line of rotate-and-add; the CRC is uninterpreted in every
+// property that uses it, so its bit-level definition is not needed.
+//@ func Checksum.Value
+//@ trusted
+//@ pure
+//@ ensures result == crcValue(c)
